@@ -25,7 +25,7 @@ worker() {
     if [ $kind = seeded ]; then props=${m%%-*}; else props=$ids; fi
     line=""
     for p in $props; do
-      res=$(VERIF_REPO=$w/repo VERIF_OUT=$w/out VERIF_REPLAY_CRATE=$w/replay VERIF_EVIDENCE_DIR=$w/out/evidence ./check $p quick 2>&1); rc=$?
+      res=$(VERIF_NO_CANARY=1 VERIF_REPO=$w/repo VERIF_OUT=$w/out VERIF_REPLAY_CRATE=$w/replay VERIF_EVIDENCE_DIR=$w/out/evidence ./check $p quick 2>&1); rc=$?
       obs=$(echo "$res" | grep "^failed obligation:" | sed 's/^failed obligation: //' | cut -c1-90 | sort -u | head -8 | tr '\n' ';' | sed 's/|/\\|/g')
       und=$(echo "$res" | grep "^UNDECIDED:" | cut -c1-140 | head -2 | tr '\n' ';' | sed 's/|/\\|/g')
       echo "$m|$p|$rc|$obs|$und" >> $base/results
